@@ -84,7 +84,12 @@ def build_and_check(case):
             sp = [s.as_text() for s in sp]
         elif form == "dict":
             sp = [s.as_dict() for s in sp]
-        tx = network.tx_utils.create_tx(sp, payables, fee=fee)
+        payables_arg = list(payables)
+        tx = network.tx_utils.create_tx(sp, payables_arg, fee=fee)
+        # the caller goes on using the lists it passed in (sorting, re-filling, emptying them)
+        sp.reverse()
+        sp.append(sp[0])
+        del payables_arg[:]
     except Exception as e:
         err = e
     ref_desc = "pool=%d over %d unspecified: %s" % (total_in - sum(pay) - fee, j, "refuse" if exp is None else exp)
@@ -147,6 +152,8 @@ class Split(Driver):
             self.lists += [list(v) for v in itertools.product((1, 2, 10 ** 8), repeat=3)]
         else:
             self.lists = [list(v) for n in (1, 2, 3) for v in itertools.product(self.values, repeat=n)]
+        # totals beyond 2^53 (where float arithmetic stops being exact): five and more maximal spendables
+        self.lists += [[MAX] * 5, [MAX] * 6, [MAX] * 5 + [7], [MAX - 1] * 5 + [3, 1]]
         self.bound = dict(value_alphabet=list(self.values), value_lists=len(self.lists), max_unspecified=4, max_fixed=2,
                           fixed_amounts=list(self.FIXED), pool_window="-2..3j+2 plus fee 0..j-1",
                           spellings=list(self.spells), spendable_forms=list(self.forms))
@@ -213,7 +220,8 @@ SRC = {
 OUTPOINTS = [("A", 0), ("A", 1), ("A", 2), ("B", 0), ("B", 1)]
 PER_INPUT = ["amount+1", "amount-1", "script-first-byte", "script-last-byte", "script-truncated", "script-extended",
              "script-empty", "sibling-0", "sibling-1", "sibling-2", "index=len", "index=len+1", "index=2^32-1", "amount-as-other-source"]
-PER_DB = ["missing", "wrong-id", "source-amount-changed", "source-script-changed", "source-output-dropped"]
+PER_DB = ["missing", "wrong-id", "source-amount-changed", "source-script-changed", "source-output-dropped",
+          "forged-source-amount", "forged-source-script"]
 
 
 def unspents_case(case):
@@ -287,6 +295,17 @@ def unspents_case(case):
             else:
                 outs = outs[:idx]
             db[t.hash()] = Tx(1, list(t.txs_in), outs)              # a different transaction filed under the old id
+            differs = True
+        elif kind in ("forged-source-amount", "forged-source-script"):
+            # the record is wrong AND the database holds, under the genuine id, a doctored copy of the source that agrees with it
+            t = src[name]
+            outs = [Tx.TxOut(o.coin_value, bytes(o.script)) for o in t.txs_out]
+            if kind == "forged-source-amount":
+                r[0] += 8999
+            else:
+                r[1] = r[1] + b"\x51"
+            outs[idx] = Tx.TxOut(r[0], r[1])
+            db[t.hash()] = Tx(1, list(t.txs_in), outs)
             differs = True
         else:
             raise ValueError(kind)
@@ -456,11 +475,12 @@ class FeeHistory(Driver):
     id = "C13.history"
     rule = ("state = one Tx whose spent-output records are replaced by a history of <= 3 operations from {observe fee()/total_in(), "
             "set_unspents(claimed amounts), set_unspents(true amounts), assign .unspents directly (claimed / true), "
-            "unspents_from_db(source transactions), append an output}; after every operation fee() = total_in() - total_out() "
+            "unspents_from_db(source transactions), append an output, assign the true records plus one stray record (then the amounts are "
+            "either refused or those of the inputs alone)}; after every operation fee() = total_in() - total_out() "
             "with total_in() the sum of the current records, and validate_unspents never returns normally while a claimed "
             "amount differs from its source; non-trivial = the records changed after a fee was observed")
 
-    OPS = ["observe", "set:claimed", "set:true", "assign:claimed", "assign:true", "from_db", "add-output"]
+    OPS = ["observe", "set:claimed", "set:true", "assign:claimed", "assign:true", "from_db", "add-output", "assign:true+stray"]
 
     def __init__(self, tier, seed):
         Driver.__init__(self, tier, seed)
@@ -492,6 +512,7 @@ class FeeHistory(Driver):
             return BAD("construction", "transaction constructible", "EXC %s: %s" % (type(e).__name__, e), clause="construct")
         cur = list(true)
         outs = 100000
+        stray = False
         observed = False
         changed_after_observe = False
         n = 0
@@ -509,13 +530,24 @@ class FeeHistory(Driver):
                     tx.unspents_from_db(db); new = true
                 elif op == "add-output":
                     tx.txs_out.append(Tx.TxOut(7, b"\x54")); outs += 7; new = cur
+                elif op == "assign:true+stray":
+                    tx.unspents = mk(true) + [Tx.Spendable(50000, b"\x51", src.hash(), 0)]; new = true
                 else:
                     new = cur
+                if op in ("set:claimed", "set:true", "assign:claimed", "assign:true", "from_db"):
+                    stray = False
+                elif op == "assign:true+stray":
+                    stray = True
                 if op != "observe" and observed and (list(new) != cur or op == "add-output"):
                     changed_after_observe = True
                 cur = list(new)
                 want_in = sum(v for v, _ in cur)
-                got = (tx.total_in(), tx.total_out(), tx.fee())
+                try:
+                    got = (tx.total_in(), tx.total_out(), tx.fee())
+                except Exception:
+                    if not stray:
+                        raise
+                    got = (want_in, outs, want_in - outs)        # more records than inputs: refusing to add them up is fine
                 n += 3
                 observed = True
             except Exception as e:
@@ -535,7 +567,7 @@ class FeeHistory(Driver):
                            clause="fee-history-validate", n=n, step=step)
             if returned and r != want_in - outs:
                 return BAD("fee-differs", "validate_unspents returns the fee %d" % (want_in - outs), repr(r), clause="fee-history", n=n, step=step)
-            if not returned and cur == true:
+            if not returned and cur == true and not stray:
                 return BAD("validate-raises", "validate_unspents returns normally for true records", "raised", clause="fee-history-validate", n=n, step=step)
         return OK("changed-after-observe" if changed_after_observe else "plain", n=n)
 
